@@ -11,7 +11,7 @@ class C09(SessionProp):
     prop_file = "Props/C09"
     gen_role = CLIENT
     rule = (
-        "seeded client histories (1-14 calls): bind/search/extended requests interleaved with deliveries of server "
+        "corpus of 300-cycle histories replaying retired ids >= 257 and of >64 KiB queues; seeded client histories (1-14 calls, 1% long/large as in the corpus): bind/search/extended requests interleaved with deliveries of server "
         "messages of every kind carrying ids drawn from outstanding / completed / never issued / 0 / huge, several "
         "messages per delivery, plus request-type messages, chunked and corrupted deliveries and refused calls; an "
         "independent bookkeeping of operations in progress judges every acceptance and every ProtocolError; "
